@@ -222,6 +222,7 @@ def run_merge(res, E, aspa, K, tag):
                       })
     n_ret = 0
     shapes = set()
+    reported = set()
     for i, p in enumerate(paths):
         if p.kind == "bound":
             res.inconclusive.append("%s::merge: a feasible path exceeds %d loop iterations with %d keys" % (ty, 2 * K + 3, K))
@@ -304,8 +305,11 @@ def run_merge(res, E, aspa, K, tag):
         shapes.add((tuple(shape), tn is not None))
         for what, cond_ok, key in (("lists different actions than the direct delta", items_ok, "items"),
                                    ("has counts that differ from the direct delta's", counts_ok, "counts")):
+            if key in reported:
+                continue
             mdl = E.model(p.cond, z3.Not(cond_ok))
             if mdl is not None:
+                reported.add(key)
                 cex = {nm: [mdl.eval(v, model_completion=True).as_long() for v in s_] for nm, s_ in zip("abc", sets)}
                 desc = "%s::merge(construct(a,b), construct(b,c)) %s for a=%s b=%s c=%s (per key 0..%d: 0 absent%s)" % (
                     ty, what, cex["a"], cex["b"], cex["c"], K - 1, ", n = provider set n" if aspa else ", 1 present")
@@ -345,12 +349,22 @@ fn c12_native_merge() {
         let it = |i: usize| s[i].iter().map(|(a, b)| (a, b));
         let d1 = AspaDelta::construct(it(0), it(1));
         let d2 = AspaDelta::construct(it(1), it(2));
-        (format!("{:?}", AspaDelta::merge(&d1, &d2)), format!("{:?}", AspaDelta::construct(it(0), it(2))))
+        let m = AspaDelta::merge(&d1, &d2);
+        let wd = m.items.iter().filter(|i| matches!(i.1, AspaAction::Withdraw(_))).count();
+        println!("NATIVE-C12 counters announce_len={} withdraw_len={} listed announce/update={} withdraw={}",
+                 m.announce_len, m.withdraw_len, m.items.len() - wd, wd);
+        assert!(m.announce_len == m.items.len() - wd && m.withdraw_len == wd, "merged counters differ from the listed actions");
+        (format!("{:?}", m), format!("{:?}", AspaDelta::construct(it(0), it(2))))
     }
     else {
         let d1 = StandardDelta::<u32>::construct(STD[0].iter(), STD[1].iter());
         let d2 = StandardDelta::<u32>::construct(STD[1].iter(), STD[2].iter());
-        (format!("{:?}", StandardDelta::merge(&d1, &d2)),
+        let m = StandardDelta::merge(&d1, &d2);
+        let wd = m.items.iter().filter(|i| matches!(i.1, Action::Withdraw)).count();
+        println!("NATIVE-C12 counters announce_len={} withdraw_len={} listed announce={} withdraw={}",
+                 m.announce_len, m.withdraw_len, m.items.len() - wd, wd);
+        assert!(m.announce_len == m.items.len() - wd && m.withdraw_len == wd, "merged counters differ from the listed actions");
+        (format!("{:?}", m),
          format!("{:?}", StandardDelta::<u32>::construct(STD[0].iter(), STD[2].iter())))
     };
     println!("NATIVE-C12 merged={} direct={}", merged.replace('\\n', " "), direct.replace('\\n', " "));
@@ -372,7 +386,7 @@ def replay(res, aspa, cex, K):
                 .replace("@SETS@", sets if aspa else "&[], &[], &[]"))
     failed, passed, out = nativetest.run_native_test("native_c12", "c12_native_merge")
     line = [l for l in out.splitlines() if "NATIVE-C12" in l]
-    res.notes.append("native replay: " + (line[0][:600] if line else "no output: " + out[-400:]))
+    res.notes.append("native replay: " + (" | ".join(line)[:900] if line else "no output: " + out[-400:]))
     if failed:
         return True
     if passed:
